@@ -166,6 +166,90 @@ theorem candLoop_spec (lp rp fs fe : Nat) (hfe : fe < maxU32) : ∀ (fuel : Nat)
         · exact j4 q ((i2 q).mpr ⟨(i1 q).mpr hq, by omega⟩) hlt h3 h4
 
 
+/-- the candidates come out in strictly increasing order -/
+theorem candLoop_sorted (lp rp fs fe : Nat) : ∀ (fuel : Nat) (it : Hit) (acc : List Nat),
+    it.WF → it.size < fuel → acc.Pairwise (· > ·) → (∀ e, e ∈ acc → ∀ q, it.has q → e + fs + lp < q) →
+    (candLoop lp rp fs fe fuel it acc).1.Pairwise (· < ·) := by
+  intro fuel
+  induction fuel with
+  | zero => intro it acc _ hf; omega
+  | succ fuel ih =>
+    intro it acc hw hf hacc hinv
+    obtain ⟨w1, i1, s1, m1⟩ := it.first_spec hw
+    have hsz := it.first_next_size hw
+    rw [candLoop]
+    generalize hfirst : it.first = fr at w1 i1 s1 m1 hsz
+    obtain ⟨p1, it1⟩ := fr
+    simp only at w1 i1 s1 m1 hsz
+    simp only []
+    by_cases hstop : p1 = maxU32 ∨ p1 ≥ fe
+    · simp only [hstop, if_true]
+      exact List.pairwise_reverse.mpr hacc
+    · simp only [hstop, if_false]
+      have hp1 : p1 ≠ maxU32 := fun h => hstop (Or.inl h)
+      obtain ⟨w2, i2, _⟩ := it1.next_spec w1 p1 hp1
+      have hsz2 := hsz hp1
+      have hasp1 : it.has p1 := by
+        rcases m1 with ⟨a, _⟩ | ⟨a, _⟩
+        · exact absurd a hp1
+        · exact a
+      have hsub : ∀ q, (it1.next p1).has q → it.has q ∧ p1 < q := by
+        intro q hq
+        have := (i2 q).mp hq
+        exact ⟨(i1 q).mp this.1, this.2⟩
+      by_cases hwin : p1 < lp + fs ∨ p1 + rp > fe
+      · simp only [hwin, if_true]
+        exact ih (it1.next p1) acc w2 (by omega) hacc (fun e he q hq => hinv e he q (hsub q hq).1)
+      · simp only [hwin, if_false]
+        refine ih (it1.next p1) ((p1 - fs - lp) :: acc) w2 (by omega) ?_ ?_
+        · refine List.pairwise_cons.mpr ⟨fun e he => ?_, hacc⟩
+          have := hinv e he p1 hasp1
+          omega
+        · intro e he q hq
+          have hq' := hsub q hq
+          rcases List.mem_cons.mp he with h | h
+          · subst h; omega
+          · exact hinv e h q hq'.1
+
+/-- two strictly increasing lists with the same elements are equal -/
+theorem sorted_ext : ∀ (l1 l2 : List Nat), l1.Pairwise (· < ·) → l2.Pairwise (· < ·) →
+    (∀ x, x ∈ l1 ↔ x ∈ l2) → l1 = l2 := by
+  intro l1
+  induction l1 with
+  | nil =>
+    intro l2 _ _ h
+    cases l2 with
+    | nil => rfl
+    | cons b t => exact absurd ((h b).mpr List.mem_cons_self) (by simp)
+  | cons a t ih =>
+    intro l2 h1 h2 h
+    cases l2 with
+    | nil => exact absurd ((h a).mp List.mem_cons_self) (by simp)
+    | cons b t2 =>
+      have ha := List.pairwise_cons.mp h1
+      have hb := List.pairwise_cons.mp h2
+      have hab : a = b := by
+        have m1 := (h a).mp List.mem_cons_self
+        have m2 := (h b).mpr List.mem_cons_self
+        rcases List.mem_cons.mp m1 with e | e
+        · exact e
+        · rcases List.mem_cons.mp m2 with e2 | e2
+          · exact e2.symm
+          · have := hb.1 a e; have := ha.1 b e2; omega
+      subst hab
+      congr 1
+      apply ih t2 ha.2 hb.2
+      intro x
+      constructor
+      · intro hx
+        rcases List.mem_cons.mp ((h x).mp (List.mem_cons_of_mem _ hx)) with e | e
+        · subst e; have := ha.1 x hx; omega
+        · exact e
+      · intro hx
+        rcases List.mem_cons.mp ((h x).mpr (List.mem_cons_of_mem _ hx)) with e | e
+        · subst e; have := hb.1 x hx; omega
+        · exact e
+
 /-! ### the invariant of `ngramDocIterator` along a search -/
 
 /-- the pattern occurs at rune offset `o` of document `d` -/
@@ -301,6 +385,43 @@ theorem DocIter.prepare_candidates (texts : List (List Nat)) (pat : List Nat) (i
       simp only [baseOf]; omega
     · simp only [DocIter.prepare] at b; omega
 
+
+/-- `next(limit)` keeps the iterator well-formed, for every limit (the sentinel included) -/
+theorem Hit.next_wf (h : Hit) (hw : h.WF) (limit : Nat) : (h.next limit).WF := by
+  cases h with
+  | basic b =>
+    have hb : b.Sorted ∧ b.Bounded := hw
+    exact ⟨b.next_sorted _ hb.1, b.next_bounded _ hb.2⟩
+  | dist x =>
+    have hx : x.WF := hw.1
+    obtain ⟨y, hy1, hy2, he⟩ : ∃ y : Dist, y.i1 = x.i1.next limit ∧
+        y.i2 = x.i2.next (if limit + x.d > maxU32 then maxU32 else limit + x.d) ∧
+        (Hit.dist x).next limit = Hit.dist (Dist.findNext y.fuel y) :=
+      ⟨⟨x.i1.next limit, x.i2.next (if limit + x.d > maxU32 then maxU32 else limit + x.d), x.d, x.started⟩,
+        rfl, rfl, rfl⟩
+    rw [he]
+    have hwy : y.WF := by
+      refine ⟨?_, ?_, ?_, ?_⟩
+      · rw [hy1]; exact x.i1.next_sorted _ hx.s1
+      · rw [hy2]; exact x.i2.next_sorted _ hx.s2
+      · rw [hy1]; exact x.i1.next_bounded _ hx.b1
+      · rw [hy2]; exact x.i2.next_bounded _ hx.b2
+    exact ⟨Dist.findNext_wf y.fuel y hwy,
+      fun _ => Dist.findNext_settled y hwy y.fuel (by simp only [Dist.fuel, Dist.size]; omega)⟩
+
+/-- the candidates of a document are strictly increasing rune offsets -/
+theorem DocIter.candidates_sorted (it : DocIter) (hw : it.iter.WF) (d : Nat) :
+    (it.prepare d).candidates.1.Pairwise (· < ·) := by
+  have hw' : (it.prepare d).iter.WF := by
+    simp only [DocIter.prepare]
+    generalize (if d > 0 then it.ends.getD (d - 1) 0 else 0) = start
+    by_cases hs : start > 0
+    · simp only [hs, if_true]; exact it.iter.next_wf hw _
+    · simp only [hs, if_false]; exact hw
+  simp only [DocIter.candidates]
+  split
+  · simp
+  · exact candLoop_sorted _ _ _ _ _ _ [] hw' (by omega) (by simp) (fun e he => by simp at he)
 
 /-! ### the iterator `iterateNgrams` builds, for any choice `i ≤ j` of the two trigram positions -/
 
